@@ -2,6 +2,7 @@
 import io
 import itertools
 import json
+from mc import strictjson
 import os
 import sys
 import tempfile
@@ -165,7 +166,7 @@ def _cli(case, data, base, bad):
             bad('cli-exit', 'exit status %r' % r.status)
         if r.stdout.strip():
             try:
-                json.loads(r.stdout)
+                strictjson.loads(r.stdout)
             except Exception as e:
                 bad('cli-not-json', 'stdout is not one JSON document: %s' % e)
             if case['dev'][0] == 'cut' and len(data) < len(base):
